@@ -115,6 +115,7 @@ def run(ctx):
         nonascii += int(kv.get("nonascii", 0))
         skipped += int(kv.get("skipped", 0))
         late_cases += int(kv.get("late", 0))
+        qid = cid.split("-", 1)[0]
         if kv.get("capi", "skipped") != "skipped":
             capi_cmp += 1
             if kv["capi"] != "ok":
@@ -150,7 +151,9 @@ def run(ctx):
     matching = [VARIANTS[i] for i in range(NV) if var_ok[i]]
     if corr_cases and not matching:
         cid, kv, vs = first_diff
-        ctx.violation("corr", "model (TsVerif.C18.runTags / utf16Len / lineRange) and implementation disagree: %s %s (no code variant matches all cases)" % (cid, kv["corr"]),
+        what = ("API probe (error code / cancellation) of crates/tags does not answer as tags.h documents"
+                if kv.get("kind") == "cerr" else "model (TsVerif.C18.runTags / utf16Len / lineRange) and implementation disagree")
+        ctx.violation("corr", "%s: %s %s (no code variant matches all cases)" % (what, cid, kv["corr"]),
                       {"case": cid, "spec": specs.get(cid, ""), "result": kv,
                        "correspondence": "TsVerif.C18.Model vs crates/tags/src/tags.rs + lib/binding_rust/lib.rs:LossyUtf8"},
                       fingerprint={"corr": "diff"}, found_input=False)
